@@ -32,7 +32,7 @@ def doc_pool(seed, tier):
         elif k < 0.8:
             text, f, root = gd.stroke_doc(rng)
             pool.append((text, 3, False, False))
-        elif k < 0.9:
+        elif k < 0.88:
             # text-heavy documents with inherited presentation attributes (allow_text path)
             g = gd.Gen(rng, paint=True, nested_svg=False, unique_fills=False)
             body = []
@@ -45,6 +45,14 @@ def doc_pool(seed, tier):
                 body.append(grp)
             root = g.document(body_nodes=body, root_attrs={"fill": "red", "stroke-linecap": "round"})
             pool.append((gd.to_xml(root), 3, True, False))
+        elif k < 0.95:
+            # a small vocabulary of transform / path snippets shared between documents, so that
+            # anything memoised by text across conversions is hit with the same keys in new contexts
+            vocab = ["rotate(30)", "translate(40 10) rotate(30)", "rotate(30) scale(2)", "skewX(10)", "translate(5) skewX(10)", "skewY(10) rotate(45)",
+                     "rotate(45)", "scale(2) rotate(45 10 10)", "rotate(45 10 10)", "translate(3 4)", "matrix(1 0 0 1 3 4)", "scale(0.5)"]
+            shapes = "".join(f'<rect x="{rng.randint(0, 40)}" y="{rng.randint(0, 40)}" width="20" height="10" fill="{rng.choice(gd.PALETTE)}" transform="{rng.choice(vocab)}"/>'
+                             for _ in range(rng.randint(1, 4)))
+            pool.append((f'<svg xmlns="http://www.w3.org/2000/svg" viewBox="0 0 100 100">{shapes}</svg>', 3, False, False))
         else:
             # documents that raise (exception paths must leave no state behind)
             pool.append((rng.choice(('<svg xmlns="http://www.w3.org/2000/svg"><use xlink:href="#nope" xmlns:xlink="http://www.w3.org/1999/xlink"/></svg>',
